@@ -261,7 +261,8 @@ def primezeta(ctx, s):
     if s == 0.5:
         return ctx.mpc(ctx.ninf, ctx.pi)
     r = ctx.re(s)
-    if r > ctx.prec:
+    # the next term is 3**(-s): negligible only when (2/3)**r < eps
+    if r > 2*ctx.prec:
         return 0.5**s
     else:
         wp = ctx.prec + int(r)
